@@ -119,6 +119,10 @@ pub struct Config {
     /// data memory (everything outside the table zones) reads as zero instead of garbage
     #[serde(default)]
     pub zero_data: bool,
+    /// recursive view: build the mapper with `new_unchecked(alias, R)` where `alias` is another
+    /// mapping of the level-4 table (not its recursive address)
+    #[serde(default)]
+    pub rec_alias: bool,
     /// stale memory holds no word with bit 0 set (see PhysMem::even_garbage)
     #[serde(default)]
     pub even_garbage: bool,
